@@ -32,8 +32,10 @@ ASSUMPTIONS = ["recorders patch only non-Initializer classes at class level (Hea
                "the dumping wiring added to a shipped file copies power_bounded_dump.ini: tagger with create/trash = "
                "dumping, listed in the start-of-run create list and the end-of-run trash list"]
 
+SHIPPED_DUMP = "2018_JCP_149_064113/coulomb_atoms/power_bounded_dump.ini"
 BASES = [
-    "2018_JCP_149_064113/coulomb_atoms/power_bounded.ini",
+    SHIPPED_DUMP,
+    SHIPPED_DUMP,
     "2018_JCP_149_064113/coulomb_atoms/power_bounded.ini",
     "2018_JCP_149_064113/coulomb_atoms/cell_bounded.ini",
     "2018_JCP_149_064113/coulomb_atoms/cell_veto.ini",
@@ -130,7 +132,11 @@ def read_log(path):
 
 def body(rec, c):
     scratch = build.scratch_root()
-    text = configs.materialise({"base": c["base"], "edits": [tuple(e) for e in c["edits"]]})
+    shipped_dump = c["base"] == SHIPPED_DUMP
+    # the shipped dump example is run with its own dumping wiring (only interval and end time are set); its counterpart
+    # without dumping is the shipped power_bounded.ini it was derived from
+    plain_base = "2018_JCP_149_064113/coulomb_atoms/power_bounded.ini" if shipped_dump else c["base"]
+    text = configs.materialise({"base": plain_base, "edits": [tuple(e) for e in c["edits"]]})
     # calibrate the event rate in process (not part of the comparison)
     mon = monitor.HistoryMonitor()
     engine.run(configs.set_option(text, "FinalTimeEndOfRunEventHandler", "end_of_run_time", "100000.0"), c["seed"],
@@ -143,7 +149,12 @@ def body(rec, c):
         rec.exclude("degenerate calibration")
         return
     plain = configs.set_option(text, "FinalTimeEndOfRunEventHandler", "end_of_run_time", repr(end))
-    dumped = add_dumping(plain, interval)
+    if shipped_dump:
+        dumped = configs.materialise({"base": SHIPPED_DUMP, "edits": [tuple(e) for e in c["edits"]]})
+        dumped = configs.set_option(dumped, "FinalTimeEndOfRunEventHandler", "end_of_run_time", repr(end))
+        dumped = configs.set_option(dumped, "FixedIntervalDumpingEventHandler", "dumping_interval", repr(interval))
+    else:
+        dumped = add_dumping(plain, interval)
     work = tempfile.mkdtemp(prefix="jfdump_")
     try:
         with open(os.path.join(work, "a.ini"), "w") as f:
